@@ -22,7 +22,8 @@ fn gen_weights(g: &mut Gen, tiny_lo: f64, tiny_hi: f64) -> Vec<f64> {
     let len = match g.range(0, 9) {
         0 => 1,
         1..=5 => g.usize(2, 8),
-        _ => g.usize(9, 64),
+        6..=8 => g.usize(9, 64),
+        _ => crate::core::dict_size(g, 1, 1100).unwrap_or(65),
     };
     let style = g.range(0, 5);
     // unnormalised: ordinary scales, very large ones, and sums in the subnormal range of the float type
